@@ -46,7 +46,7 @@ def _filters():
     for n in ("participants", "spectators"):
         f[n] = ("PL", "OP", lambda r: [])
     f["keep_quarks"] = ("PL", "JP", lambda r: [])
-    f["particle_species"] = ("PL", "OJP", lambda r: [r.choice([r.choice(PDGS), r.sample(PDGS, r.randint(1, 3)), 9999999 if False else 310])])
+    f["particle_species"] = ("PL", "OJP", lambda r: [r.choice([r.choice(PDGS), r.sample(PDGS, r.randint(1, 3)), 310])])
     f["remove_particle_species"] = ("PL", "OJP", lambda r: [r.choice([r.choice(PDGS), r.sample(PDGS, r.randint(1, 3))])])
     f["particle_status"] = ("PL", "JP", lambda r: [r.choice([27, 11, 5])])
     f["pT_cut"] = ("PL", "OJP", lambda r: [r.choice([[0.75, None], [None, 1.5], [0.75, 2.5], [50.0, None]])])
@@ -214,7 +214,6 @@ class Engine:
             if pl == []:
                 plo = {"kind": "empty"}
             elif all(isinstance(r, list) and r and not isinstance(r[0], list) for r in pl):
-                byrow = {}
                 plo = {"kind": "flat", "ids": [self.rowpid(s, r) for r in pl]}
             else:
                 plo = {"kind": "nested", "ids": [[self.rowpid(s, r) for r in ev] for ev in pl]}
@@ -320,19 +319,22 @@ class Engine:
     def ctor_tables(self, d):
         """per constructor filter: the table over everything the chain meets, event by event"""
         pids = [p["pid"] for ev in d["events"] for p in ev]
-        tabs = [{"kind": FILTERS[n][0], "keep": []} for n, a in d["filters"]]
+        tabs = []
+        for n, a in d["filters"]:
+            if FILTERS[n][0] == "PL":
+                tabs.append({"kind": "PL", "keep": self.keepset(n, a, pids)})
+            else:
+                tabs.append({"kind": "EV", "keep": []})
         for ev in d["events"]:
             content = [p["pid"] for p in ev]
             for k, (n, a) in enumerate(d["filters"]):
-                t = self.table(n, a, [content], pids)
-                if t["kind"] == "PL":
-                    tabs[k]["keep"] = t["keep"]
-                    content = [p for p in content if p in t["keep"]]
+                if tabs[k]["kind"] == "PL":
+                    content = [p for p in content if p in tabs[k]["keep"]]
                 else:
-                    for c in t["keep"]:
-                        if c not in tabs[k]["keep"]:
-                            tabs[k]["keep"].append(c)
-                    if content not in t["keep"]:
+                    if self.keeps_event(n, a, content):
+                        if content not in tabs[k]["keep"]:
+                            tabs[k]["keep"].append(content)
+                    else:
                         content = []
         return tabs
 
@@ -372,8 +374,8 @@ class Engine:
                 where = f"storer {di} step {si} {json.dumps(st)}"
                 if st[0] == "f":
                     name, args = st[1], st[2]
-                    pids = sorted(self.ref)
                     contents = [[self.ident.get(id(p), -1) for p in e] for e in s.particle_objects_list()]
+                    pids = sorted({p for e in contents for p in e})
                     try:
                         tr["ops"].append(self.table(name, args, contents, pids))
                         new_mirror = self.plain(name, args, [list(e) for e in mirror]) if (FILTERS[name][0] == "PL" or mirror) else []
@@ -499,7 +501,11 @@ def gen_def(rng, di, cls=None, small=False):
         a = rng.randrange(nev)
         d["sel"] = [a, rng.randrange(a, nev)]
     if rng.random() < 0.4:
-        d["filters"] = [gen_filter(rng, cls)[:2] for _ in range(rng.choice([1, 1, 2]))]
+        d["filters"] = []
+        for _ in range(rng.choice([1, 1, 2, 3])):
+            f = gen_filter(rng, cls)
+            if f[0] not in [g[0] for g in d["filters"]]:      # a dict of filters: one entry per name
+                d["filters"].append(f)
     return d
 
 
@@ -714,8 +720,8 @@ def nontrivial(case):
 
 
 def correspondence(ctx, model_ok=True):
-    n = 260 if ctx.quick else 5000
     cases = corpus_cases() + stress_cases()
+    n = len(cases) + (400 if ctx.quick else 6000)
     k = 0
     while len(cases) < n:
         k += 1
@@ -793,6 +799,27 @@ def correspondence(ctx, model_ok=True):
 
 
 def finding_key(msg):
+    """class of a property failure (only used to report one replay per class; no key is listed as known)"""
+    if "labels of a+b" in msg:
+        return "C04-add-labels-not-continuing"
+    if "changed an operand" in msg or "an operand of an earlier" in msg:
+        return "C04-add-mutates-operand"
+    if "a+(b+c)" in msg:
+        return "C04-add-not-associative"
+    if "+ raises" in msg:
+        return "C04-add-raises"
+    if "ndarray (2,)" in msg:
+        return "C04-count-array-1d"
+    if "list " in msg and "not an" in msg:
+        return "C04-count-array-plain-list"
+    if "particle_list() raises" in msg:
+        return "C04-particle-list-raises"
+    if "raises" in msg:
+        return "C04-operation-raises"
+    if "per-event counts" in msg or "is not an (" in msg or "num_events() =" in msg:
+        return "C04-counts-differ-from-sizes"
+    if "same\n" in msg or "plain list" in msg:
+        return "C04-contents-differ-from-plain-lists"
     return None
 
 
